@@ -22,7 +22,10 @@ RULE = (
     'boundary TSTEP,LAY,PERIM; 1-4 listed variables with names of 1-16 '
     'characters; 1-8 steps, 1-6 layers/rows/cols; built by '
     'ioapi_base.from_arrays, griddesc text without/with CF variables, or '
-    'saved to netCDF and re-opened with pncopen(format=ioapi)), then 1-6 '
+    'saved to netCDF and re-opened with pncopen(format=ioapi)); one source '
+    'in six is first put out of sync (ioapispec.preps: one more variable '
+    'added by createVariable/copyVariable without updatemeta, or TFLAG '
+    'deleted) and is then not judged itself, only the results; then 1-6 '
     '(thorough 1-14) chained operations, each drawn from the state of the '
     'file it is applied to: copy; sliceDimensions over a non-empty subset of '
     'TSTEP/LAY/ROW/COL with ints in [-n,n-1] or non-empty slices (step '
@@ -212,8 +215,9 @@ def step_class(step):
 
 
 class Machine(object):
-    def __init__(self, spec, r):
+    def __init__(self, spec, r, prep=None):
         self.spec = spec
+        self.prep = prep
         self.r = r
         self.std = I.STD_DIMS[spec['ftype']]
         self.steps = []
@@ -225,7 +229,8 @@ class Machine(object):
         r.label('route:' + spec['route'], 'ftype:%d' % spec['ftype'])
         if any(len(v) == 16 for v in spec['vars']):
             r.label('name16')
-        exc, f = attempt(I.build, spec)
+        r.label('prep:' + I.prep_kind(prep))
+        exc, f = attempt(I.build, spec, prep)
         if exc is not None:
             r.label('raised:build')
             self.stopped = True
@@ -234,8 +239,12 @@ class Machine(object):
         if I.is_disk(spec):
             self.disk = f
             self.on_disk = True
-        self.judge(f, ['build', {'route': spec['route']}],
-                   'build:' + spec['route'])
+        if I.prep_kind(prep) == 'synced':
+            self.judge(f, ['build', {'route': spec['route']}],
+                       'build:' + spec['route'])
+        # an unsynced source (variable added by hand, TFLAG deleted) is the
+        # user's doing and is not judged; every operation on it must still
+        # return a coherent file
 
     # -- state the next step is drawn from
     def state(self):
@@ -301,6 +310,8 @@ class Machine(object):
         changed = any(o in CHANGING for o in self.returned)
         r.nontrivial = bool((n >= 2 and changed) or tred or 'rename' in ops)
         r.journal = dict(file=self.spec, steps=self.steps)
+        if I.prep_kind(self.prep) != 'synced':
+            r.journal['prep'] = self.prep
         self.close()
         return r
 
@@ -484,7 +495,10 @@ def interactive(draw):
     if avoid:
         r.label('complement-of-known')
     nsteps = draw(st.integers(1, MAXSTEPS[_tier()]))
-    m = Machine(spec, r)
+    prep = 'synced'
+    if draw(st.integers(0, 3)) == 0:
+        prep = draw(I.preps(spec))
+    m = Machine(spec, r, prep)
     try:
         for _ in range(nsteps):
             if m.stopped:
@@ -498,7 +512,7 @@ def interactive(draw):
 def check_case(journal):
     """replay of a concrete journal, no Hypothesis"""
     r = Result()
-    m = Machine(journal['file'], r)
+    m = Machine(journal['file'], r, journal.get('prep'))
     try:
         for step in journal['steps']:
             if m.stopped:
